@@ -12,7 +12,7 @@ from . import child, digest as D
 from .procs import fork_run
 
 PROP = "C13"
-PROG_MUTS = ["op_append", "op_del", "op_replace", "op_rename", "arg_set", "arg_append", "kwarg_set",
+PROG_MUTS = ["op_append_badarray", "op_pop", "op_pop", "op_append", "op_del", "op_replace", "op_rename", "arg_set", "arg_append", "kwarg_set",
              "modes_edit", "var_array_write", "var_set", "option_add", "type_option_add", "modes_add",
              "array_arg_write", "list_kwarg_append"]
 GRAPH_MUTS = ["g_add_node", "g_remove_node", "g_add_edge", "g_set_attr"]
